@@ -45,6 +45,9 @@ def run(ctx):
             if route == "json" and not kinds_of(v["tree"], set()) <= jsonable:
                 continue
             vectors.append(dict(v, id=len(vectors), route=route))
+        if v["tree"]["type"] == "flex":
+            # the same tree through the statically typed flex (FlexRef over a Vec / an array / a tuple of children)
+            vectors.append(dict(v, tree=dict(v["tree"], ref=1 + len(vectors) % 3), id=len(vectors), route="typed"))
     n1 = len(vectors)
     nrnd = 6000 if q else 300000
     per = nrnd // lib.NCPU
